@@ -14,7 +14,9 @@ pub fn run(ctx: &Ctx) -> i32 {
          alloc/alloc_zeroed/realloc. Around each parse_float call (inputs pre-built, result returned by value, no \
          panic) the counter delta must be 0 in the four configurations without `alloc` (default, compact, no_std, \
          no_std+compact); in the four `alloc` configurations the same inputs must show delta > 0 whenever the \
-         big-integer path ran - that positive control is checked on every case, so a dead counter cannot pass. Inputs: \
+         big-integer path ran - that positive control is checked on every case, so a dead counter cannot pass. Each \
+         input is parsed twice in the no-alloc configurations: through slice iterators and through filter iterators \
+         over pre-built '_'-separated buffers (inexact size hints). Inputs: \
          the midpoint / long-tail / closest-approach families weighted to the big-integer path (negative and positive \
          digit comparison, 5-powers >= 135 so large_mul/long_mul temporaries exist), plus shaped random and range \
          ends, f32 and f64. Non-trivial: the real code took the big-integer path (default or compact \
@@ -24,7 +26,14 @@ pub fn run(ctx: &Ctx) -> i32 {
     let cases = ctx.cases(800_000, 40_000_000);
     let r = run_recipes(ctx.seed, cases, ctx.threads, 15, |r, stats| {
         let fmt = if r.sel[7] & 1 == 0 { Fmt::F64 } else { Fmt::F32 };
-        let c = match pick_w(r.sel[0], &[35, 25, 20, 10, 10]) {
+        let c = match pick_w(r.sel[0], &[33, 24, 19, 10, 10, 4]) {
+            5 => {
+                if fmt == Fmt::F64 {
+                    gen::g_n(r)
+                } else {
+                    gen::g_p(fmt, r)
+                }
+            }
             0 => gen::g_b(fmt, r, lim),
             1 => gen::g_g(fmt, r, lim),
             2 => gen::g_c(fmt, r, lim),
@@ -34,7 +43,38 @@ pub fn run(ctx: &Ctx) -> i32 {
         let pd = CFGS[0].path(fmt, &c.int, &c.frac, c.exp);
         let pc = CFGS[1].path(fmt, &c.int, &c.frac, c.exp);
         let (int, frac, exp) = (&c.int[..], &c.frac[..], c.exp);
+        // the same digits with `_` separators, to be read through filter iterators (inexact size hints)
+        let sep = |s: &[u8]| -> Vec<u8> {
+            let mut o = Vec::with_capacity(s.len() + s.len() / 3 + 2);
+            o.push(b'_');
+            for (i, &b) in s.iter().enumerate() {
+                o.push(b);
+                if i % 3 == 2 {
+                    o.push(b'_');
+                }
+            }
+            o
+        };
+        let (int_sep, frac_sep) = (sep(int), sep(frac));
         for cfg in CFGS.iter() {
+            if !cfg.alloc {
+                let g = match fmt {
+                    Fmt::F32 => cfg.parse_sep32,
+                    Fmt::F64 => cfg.parse_sep64,
+                };
+                let before = count();
+                let bits = crate::runner::catch(|| g(&int_sep, &frac_sep, exp));
+                let delta = count() - before;
+                if bits.is_ok() && delta != 0 {
+                    return Err(Failure::violation(
+                        format!("config {} (no alloc feature) performed {} heap allocation(s) parsing {}.{}e{} as {} through filter iterators", cfg.name, delta, gen::abbreviate(int), gen::abbreviate(frac), exp, fmt.name()),
+                        format!("alloc:{}:filter-iterators", cfg.name),
+                        json!({"kind": "parse", "format": fmt.name(), "config": cfg.name, "integer": String::from_utf8_lossy(int), "fraction": String::from_utf8_lossy(frac), "exponent": exp,
+                               "extra": {"allocations": delta, "via": "filter iterators over '_'-separated buffers"}}),
+                    ));
+                }
+                stats.count("filter-iterator-calls");
+            }
             let f = match fmt {
                 Fmt::F32 => cfg.parse32,
                 Fmt::F64 => cfg.parse64,
